@@ -7,6 +7,7 @@ import (
 	"strconv"
 	"strings"
 
+	ber "github.com/go-asn1-ber/asn1-ber"
 	ldap "github.com/go-ldap/ldap/v3"
 	"github.com/jimlambrt/gldap"
 )
@@ -824,7 +825,12 @@ func roundTrips(f string) bool {
 	if err != nil {
 		return false
 	}
-	d, err := ldap.DecompileFilter(p)
+	// over the wire: what a server decodes is the packet re-read from bytes
+	wire, err := ber.DecodePacketErr(p.Bytes())
+	if err != nil {
+		return false
+	}
+	d, err := ldap.DecompileFilter(wire)
 	if err != nil {
 		return false
 	}
